@@ -8,6 +8,7 @@ import PartituraModel.Proofs.C11Dur
 import PartituraModel.Proofs.C11Split
 import PartituraModel.Proofs.C11Tie
 import PartituraModel.Proofs.C11Meas
+import PartituraModel.Proofs.C11Walk
 
 namespace C11
 open Model Model.Dur Model.Meas Gen
@@ -106,7 +107,7 @@ theorem measures_tile (f : Rat → Nat → Option Rat) (hf : C11Meas.Integral f)
     (∀ m ∈ ms', p.first ≤ m.start ∧ m.stop ≤ p.last) ∧
     (∀ t, p.first ≤ t → t < p.last → ∃ m ∈ ms', m.start ≤ t ∧ t < m.stop) ∧
     (p.measures.map C11Meas.ext).Sublist (ms'.map C11Meas.ext) := by
-  obtain ⟨htn, hsub⟩ := C11Meas.add_measures_sound' f hf p fuel l ms' hok hl hex h
+  obtain ⟨htn, hsub, _⟩ := C11Meas.add_measures_sound' f hf p fuel l ms' hok hl hex h
   obtain ⟨d1, d2⟩ := C11Meas.tn_disjoint _ _ _ _ _ htn
   exact ⟨d1, d2, C11Meas.tn_cover _ _ _ _ _ htn, hsub⟩
 
@@ -116,6 +117,23 @@ theorem numbers_consecutive (f : Rat → Nat → Option Rat) (hf : C11Meas.Integ
     (hex : C11Meas.ExistingOK p l) (h : addMeasuresWith f p fuel = .ok ms') :
     ∀ (i : Nat) (hi : i < ms'.length), (ms'[i]).number = some (1 + (i : Int)) :=
   (C11Meas.tn_numbers _ _ _ _ _ (C11Meas.add_measures_sound' f hf p fuel l ms' hok hl hex h).1).1
+
+/-- **measure_lengths**: under the same hypotheses every measure afterwards is an old one (same extent) or was
+    added inside a stretch `(_, tsEnd, beats)` of one time signature and ends where the bar-end map puts the end
+    of a full bar from its start (`w`), or earlier only because the stretch ends there (next signature change or
+    end of the part) or an existing measure starts there -/
+theorem measure_lengths (f : Rat → Nat → Option Rat) (hf : C11Meas.Integral f) (p : PartM) (fuel : Nat)
+    (l : List (Nat × Nat × Nat)) (ms' : List Measure) (hok : C11Meas.TsOK p) (hl : stretches p = some l)
+    (hex : C11Meas.ExistingOK p l) (h : addMeasuresWith f p fuel = .ok ms') :
+    ∀ m ∈ ms', (∃ x ∈ p.measures, x.start = m.start ∧ x.stop = m.stop) ∨
+      ∃ x ∈ l, ∃ w : Nat, f (m.start : Rat) x.2.2 = some (w : Rat) ∧ m.start < x.2.1 ∧ m.stop ≤ w ∧ m.stop ≤ x.2.1 ∧
+        (m.stop = w ∨ m.stop = x.2.1 ∨ ∃ y ∈ p.measures, y.start = m.stop) := by
+  intro m hm
+  rcases (C11Meas.add_measures_sound' f hf p fuel l ms' hok hl hex h).2.2 m hm with ⟨x, hx, he⟩ | ⟨x, hx, hj⟩
+  · left
+    simp only [C11Meas.ext, Prod.mk.injEq] at he
+    exact ⟨x, hx, he.1, he.2⟩
+  · right; exact ⟨x, hx, hj⟩
 
 /-- `add_measures` is that loop over C02's beat maps -/
 theorem addMeasures_eq (p : PartM) (fuel : Nat) : addMeasures p fuel = addMeasuresWith (barEnd p) p fuel := rfl
@@ -194,6 +212,16 @@ theorem stage2_dead (qd : List (Int × Nat)) (ns : List Note) : tieStage2 qd ns 
   | nil => rfl
   | cons k ks ih => rw [List.foldl_cons, h1]; exact ih ns
 
+/-- **tie_notes_sound_same** (list level): for every note list and every part, after `tie_notes` every tie chain
+    that could be walked before (`Walk` = the recursion of `duration_tied` / `end_tied`) has the same summed
+    duration and the same end, and every note is still found under its key with the same onset, pitch, voice,
+    staff and id; a note that had a `tie_prev` (is not a row of the note array) still has one -/
+theorem tie_notes_sound_same (p : PartM) (ns : List Note) :
+    (∀ x d e, C11Walk.Walk ns x d e → C11Walk.Walk (tieNotes p ns) x d e) ∧ C11Walk.RowKept ns (tieNotes p ns) := by
+  unfold tieNotes
+  rw [stage2_dead]
+  exact C11Walk.tieStage1_sound p.qd (p.measures.map (·.start)) ns
+
 /-- for the same reason `find_tuplets` finds no candidate group and changes nothing -/
 theorem tuplet_candidates_empty (qd : List (Int × Nat)) (ns : List Note) : tupletCandidates qd ns = [] := by
   unfold tupletCandidates
@@ -203,6 +231,39 @@ theorem tuplet_candidates_empty (qd : List (Int × Nat)) (ns : List Note) : tupl
   induction ns with
   | nil => rfl
   | cons n ns ih => simpa using ih
+
+/-- **sanitize_sound_same**: on a note list whose tie links all join adjacent notes (what `tie_notes` produces,
+    `tie_sound_same`), the tie check of `sanitize_part` removes nothing, whatever the tolerance -/
+theorem sanitize_sound_same (ns : List Note) (tol : Nat) (hc : C11Walk.ContigAll ns) : sanitizeTies ns tol = ns :=
+  C11Walk.sanitize_noop ns tol hc
+
+-- non-vacuity: the witness of C11-3 — a note [0, 6) tied to [6, 8), bars of 4: the chain 0 → 2 → 1 still lasts 8
+def exA : Note := { key := 0, id := some "n0", start := 0, stop := 6, pitch := "C_0_4", voice := some 1, staff := some 1,
+                    sym := none, tiePrev := none, tieNext := some 1, slurStops := [] }
+def exB : Note := { key := 1, id := some "n1", start := 6, stop := 8, pitch := "C_0_4", voice := some 1, staff := some 1,
+                    sym := none, tiePrev := some 0, tieNext := none, slurStops := [] }
+def exTiePart : PartM := { first := 0, last := 8, npoints := 3, qd := [(0, 1)], ts := [⟨0, 4, 4, 4⟩],
+                           measures := [⟨0, 4, some 1⟩, ⟨4, 8, some 2⟩] }
+
+example : C11Walk.Walk [exA, exB] 0 8 8 :=
+  C11Walk.Walk.step 0 exA 1 2 8 rfl rfl (C11Walk.Walk.last 1 exB rfl rfl)
+
+example : C11Walk.ContigAll [exA, exB] := by
+  intro n hn
+  simp only [List.mem_cons, List.not_mem_nil, or_false] at hn
+  rcases hn with rfl | rfl
+  · refine ⟨by decide, ?_⟩
+    intro t nx ht hf
+    have : t = 1 := by simpa [exA] using ht.symm
+    subst this
+    have : nx = exB := by simpa [exA, exB] using hf.symm
+    subst this; rfl
+  · refine ⟨by decide, ?_⟩
+    intro t nx ht _
+    simp [exB] at ht
+
+example : (tieNotes exTiePart [exA, exB]).map (fun n => (n.key, n.start, n.stop, n.tiePrev, n.tieNext)) =
+    [(0, 0, 4, none, some 2), (2, 4, 6, some 0, some 1), (1, 6, 8, some 2, none)] := by decide +kernel
 
 -- non-vacuity: a note [0, 10) cut at the measure starts 4 and 8
 example : cutPoints 0 10 [0, 4, 8, 12] = [4, 8] ∧ pieceBounds 0 10 [4, 8] = [(0, 4), (4, 8), (8, 10)] := by decide
